@@ -288,13 +288,13 @@ def _generators(ctx):
             for g in cg.reachable([m]):
                 for c in util.own_nodes(g, ast.Call):
                     fn = c.func
-                    if not isinstance(fn, ast.Attribute):
-                        continue
-                    recv = fn.value
-                    persistent = isinstance(recv, ast.Attribute) and isinstance(recv.value, ast.Name) and recv.value.id == "self" \
-                        and ("rng" in recv.attr or "random" in recv.attr or "generator" in recv.attr)
-                    module_level = isinstance(recv, ast.Name) and recv.id in g.module.constants and "rng" in recv.id.lower()
-                    if not (persistent or module_level):
+                    recv = fn.value if isinstance(fn, ast.Attribute) else None
+                    # a draw from a persistent generator: a method of a generator-valued attribute / module constant, or any call
+                    # that is handed such an object as random_state= / rng= / seed= (pandas sample, scipy bootstrap ..)
+                    persistent = recv is not None and _is_generator_attr(repo, recv)
+                    module_level = isinstance(recv, ast.Name) and recv.id in g.module.constants and _is_generator_ctor(g.module.constants[recv.id])
+                    handed = any(k.arg in ("random_state", "rng", "seed") and _is_generator_attr(repo, k.value) for k in c.keywords)
+                    if not (persistent or module_level or handed):
                         continue
                     nsites += 1
                     # run-once guard somewhere on every path step -> g
@@ -313,13 +313,29 @@ def _generators(ctx):
             rs = util.kwarg(c, "random_state") or util.kwarg(c, "rng")
             if rs is not None:
                 ok = isinstance(rs, (ast.Attribute, ast.Name)) or (isinstance(rs, ast.Call) and (util.dotted(rs.func) or "").endswith("default_rng"))
-                is_attr_gen = isinstance(rs, ast.Attribute) and "rng" in rs.attr
+                is_attr_gen = _is_generator_attr(repo, rs)
                 fresh.append((c, ok and not is_attr_gen))
         ctx.sites(f"C13.R3.fresh.{g.name}", len(fresh), 1, f"seeded resampling in {qn}")
         for c, ok in fresh:
             ctx.ob("C13.R3.fresh", util.key(g, c), ok, g.where(c),
                    "the generator / random state is created from the seed inside the call: every request sees the same stream" if ok
                    else "resampling uses a generator object that outlives the call: results depend on the order of requests")
+
+
+GENERATOR_CTORS = ("default_rng", "RandomState", "Generator", "Random", "SeedSequence")
+
+
+def _is_generator_ctor(node):
+    return isinstance(node, ast.Call) and (util.dotted(node.func) or "").split(".")[-1] in GENERATOR_CTORS
+
+
+def _is_generator_attr(repo, node):
+    """`self.<attr>` (or `<obj>.<attr>`) whose value anywhere in the package is a random generator object (decided by what is
+    assigned to the attribute, not by its name): such an object keeps its position between calls."""
+    if not (isinstance(node, ast.Attribute) and isinstance(node.value, ast.Name)):
+        return False
+    ws = util.attr_writes(repo, node.attr)
+    return any(_is_generator_ctor(v) for _, _, v, _ in ws if v is not None)
 
 
 def _run_once_guarded(ctx, G, cls, step, target):
